@@ -108,7 +108,9 @@ var classTable = []classDef{
 	{"have.last", func(e env) []byte { return frame(4, u32s(uint32(e.N-1))) }},
 	{"have.oob", func(e env) []byte { return frame(4, u32s(uint32(e.N))) }},
 	{"have.max", func(e env) []byte { return frame(4, u32s(maxU32)) }},
-	{"bitfield.ok", func(e env) []byte { return frame(5, vh.BitfieldBytes(e.N, func(i int) bool { return i < 2 })) }},
+	{"bitfield.ok", func(e env) []byte {
+		return frame(5, vh.BitfieldBytes(e.N, func(i int) bool { return i < 2 || i == 9 }))
+	}},
 	{"bitfield.full", func(e env) []byte { return frame(5, vh.BitfieldBytes(e.N, func(i int) bool { return true })) }},
 	{"bitfield.spare", func(e env) []byte {
 		b := make([]byte, (e.N+7)/8)
@@ -118,6 +120,7 @@ var classTable = []classDef{
 		return frame(5, b)
 	}},
 	{"bitfield.empty", func(e env) []byte { return frame(5, nil) }},
+	{"bitfield.short", func(e env) []byte { return frame(5, make([]byte, (e.N+7)/8-1)) }}, // N > 8: not empty
 	{"bitfield.long", func(e env) []byte { return frame(5, make([]byte, (e.N+7)/8+1)) }},
 	{"bitfield.atmax", func(e env) []byte { return frame(5, junk(e.MaxMsg, 0x55)) }},
 	{"request.ok", func(e env) []byte { return frame(6, u32s(0, 0, blockLen)) }},
